@@ -10,6 +10,8 @@
       op_collided is linearized ([status_of] looks at d_stat).
     - Slot invariant [SI]: a record found in a slot belongs to a thread that is waiting with status op_waiting
       and whose descriptor holds what it published.
+    - Hand-over invariant [HI]: a node sitting in a pop descriptor is spent (its push is linearized), is not in the
+      stack and sits in no other pop descriptor; it gives [elim_exactly_one_popper].
 
     MODELLING ASSUMPTIONS, stated once:
     (smr_safe) nodes are never reused (see LV.Model.Treiber / TreiberProofs): built into the model.
@@ -163,6 +165,8 @@ Definition Inv (g : G) (a : Aux) (tr : list (nat * ev)) : Prop :=
 
 Notation safe := (@Conc.safe G V ev Aux phase view Inv).
 
+Ltac hd_same := right; right; split; reflexivity.
+Ltac nw Hv := let k := fresh "k" in let W := fresh "W" in intros k W; rewrite Hv in W; cbn in W; contradiction.
 Ltac split_inv := refine (conj _ (conj _ (conj _ (conj _ (conj _ (conj _ (conj _ _))))))).
 
 Definition upd_a (a : Aux) (t : nat) (p : phase) (ae : list (aev Stack)) : Aux :=
@@ -561,7 +565,7 @@ Proof.
       * left. unfold published; cbn. rewrite set_ph_same. cbn. lia.
       * intros Hin. apply I3 in Hin. unfold published in Hin; cbn in Hin. rewrite Hp in Hin. cbn in Hin. lia.
       * intros w' Hh'. destruct (Nat.eq_dec w' u) as [->|Hw']; auto.
-        exfalso. apply (Hfresh w'). apply Hold; auto. rewrite <- (Hnew n Hh). exact Hh'.
+        exfalso. apply (Hfresh w'). apply Hold; auto.
     + pose proof (Hold w n Hwu Hh) as Hg. destruct (I8 w n Hg) as (Hs & Hn & Hun). split; [|split].
       * destruct Hs as [Hs|[W S2]]; [left; apply Hpub; auto|].
         destruct (Nat.eq_dec (fst n) t) as [E|E].
@@ -636,7 +640,7 @@ Proof.
       * right. cbn. rewrite set_ph_other by exact Hne. rewrite Eu. cbn. split; auto. now rewrite updf_same.
       * intros Hin. apply I3 in Hin. unfold published in Hin; cbn in Hin. rewrite Eu in Hin. cbn in Hin. lia.
       * intros w' Hh'. destruct (Nat.eq_dec w' t) as [->|Hw']; auto.
-        exfalso. apply (Hfresh w'). apply Hold; auto. rewrite <- (Hnew n Hh). exact Hh'.
+        exfalso. apply (Hfresh w'). apply Hold; auto.
     + pose proof (Hold w n Hwt Hh) as Hg. destruct (I8 w n Hg) as (Hs & Hn & Hun). split; [|split].
       * destruct Hs as [Hs|[W S2]]; [left; apply Hpub; auto|].
         destruct (Nat.eq_dec (fst n) t) as [E|E].
@@ -695,7 +699,7 @@ Lemma Inv_stutter g g' a tr t es :
   Inv g' (upd_a a t (ph a t) []) (tr ++ Conc.tag t es).
 Proof.
   intros Hi H1 H2 H3 H4 H5 H6 H7 H8 H9 Hh.
-  apply (Inv_keep g g' a tr t (own a t)); [exact Hi| | | | | | |].
+  apply (Inv_keep g g' a tr t (own a t)); [exact Hi| | | | | | | | |].
   - repeat split; auto.
   - apply wr_own. apply H3.
   - apply mono_refl.
@@ -706,6 +710,8 @@ Proof.
   - apply (SI_keep g g' a t); auto. exact (Inv_SI _ _ _ Hi).
   - rewrite (status_same g g'); auto. apply lp_ok_nil.
   - rewrite Hh. reflexivity.
+  - right; right; split; [apply H5|apply H6].
+  - intros k W S2. right. split; [exact W|]. rewrite H7. exact S2.
 Qed.
 
 (** a step that changes only [t]'s phase *)
@@ -716,15 +722,17 @@ Lemma Inv_rephase g a tr t p' es :
   status_of g t p' = status_of g t (ph a t) ->
   (forall k ek i, ph a t = EPub k ek i -> p' = EPub k ek i) ->
   hist (Conc.tag t es) = [] ->
+  (forall k, is_wait_push (ph a t) k -> d_stat g t = 2%nat -> (k < lim p')%nat \/ is_wait_push p' k) ->
   Inv g (upd_a a t p' []) (tr ++ Conc.tag t es).
 Proof.
-  intros Hi L Hok Hst Hp Hh.
-  apply (Inv_keep g g a tr t (own a t)); [exact Hi| | |exact L|exact Hok| | |].
+  intros Hi L Hok Hst Hp Hh Hnw.
+  apply (Inv_keep g g a tr t (own a t)); [exact Hi| | |exact L|exact Hok| | | |hd_same|].
   - repeat split; auto.
   - apply wr_own. reflexivity.
   - apply (SI_keep g g a t); auto. exact (Inv_SI _ _ _ Hi).
   - rewrite Hst. apply lp_ok_nil.
   - rewrite Hh. reflexivity.
+  - intros k W S2. destruct (Hnw k W S2); auto.
 Qed.
 
 Lemma phase_ok_upd g a t p' ae u q :
@@ -783,7 +791,7 @@ Lemma Inv_publish g a tr t k ek i :
 Proof.
   intros Hi Hp. pose proof (Inv_phase _ _ _ t Hi) as Hme. rewrite Hp in Hme. cbn in Hme.
   destruct Hme as (Dp & Hpriv & Ds & Dv).
-  apply (Inv_keep g _ a tr t (own a t)); [exact Hi| | | | | | |reflexivity].
+  apply (Inv_keep g _ a tr t (own a t)); [exact Hi| | | | | | |reflexivity|hd_same|nw Hp].
   - repeat split; auto.
   - apply wr_own. reflexivity.
   - unfold mono. rewrite Hp. cbn. lia.
@@ -808,7 +816,7 @@ Proof.
                   d_val g1 = d_val g /\ d_stat g1 = d_stat g).
   { unfold g1. destruct (own_rec (slot_rec g i) t k); cbn; repeat split; reflexivity. }
   destruct Hsame as (S1 & S2 & S3 & S4 & S5 & S6 & S7).
-  apply (Inv_keep g _ a tr t (own a t)); [exact Hi| | | | | | |reflexivity].
+  apply (Inv_keep g _ a tr t (own a t)); [exact Hi| | | | | | |reflexivity| |].
   - repeat split; cbn; rewrite ?S1, ?S2, ?S3, ?S4, ?S5, ?S6, ?S7; auto.
   - apply wr_own. cbn. now rewrite S3.
   - unfold mono. rewrite Hp. cbn. lia.
@@ -828,6 +836,9 @@ Proof.
     { intros ->. rewrite Hp in E1. inversion E1; subst. apply Hnot. auto. }
     exists ek'. cbn. rewrite set_ph_other, S7; auto.
   - rewrite Hp. rewrite (status_same g (set_slot_lock g1 i false) t (EFin k ek)); try (intros; cbn; rewrite ?S3, ?S6, ?S7; reflexivity). apply lp_ok_nil.
+  - right; right. cbn. rewrite S5, S6. split; reflexivity.
+  - intros k0 W St2. right. rewrite Hp in W. cbn. rewrite S7. split; [|exact St2].
+    destruct ek; cbn in *; auto.
 Qed.
 
 Lemma eqb_false_true b : Bool.eqb b true = false -> b = false.
@@ -843,7 +854,7 @@ Proof.
   intros g a tr Hi Hv. unfold view in Hv. cbn [a_st_status fst snd nat_of].
   pose proof (Inv_phase _ _ _ t Hi) as Hme. rewrite Hv in Hme.
   exists (upd_a a t (EEnt k ek) []). split; [|split; [apply frame_upd_a|]].
-  { apply (Inv_keep g _ a tr t (own a t)); [exact Hi| | | | | | |reflexivity].
+  { apply (Inv_keep g _ a tr t (own a t)); [exact Hi| | | | | | |reflexivity| |].
     - repeat split; cbn; rewrite ?updf_other; auto.
     - apply wr_own. reflexivity.
     - unfold mono. rewrite Hv. destruct ek; cbn; lia.
@@ -851,7 +862,9 @@ Proof.
     - apply (SI_keep g _ a t); [exact (Inv_SI _ _ _ Hi)|sc| |].
       + intros u Hu. cbn. now rewrite updf_other.
       + intros k' ek' i' E. rewrite Hv in E. destruct ek; discriminate.
-    - rewrite Hv. destruct ek; cbn; apply lp_ok_nil. }
+    - rewrite Hv. destruct ek; cbn; apply lp_ok_nil.
+    - destruct ek; cbn; rewrite ?updf_same; [left; reflexivity|right; left; reflexivity].
+    - intros k0 W. rewrite Hv in W. destruct ek; cbn in W; contradiction. }
   rewrite view_upd_a. remember (draw rl (rpos g t) cap) as i eqn:Ei. clear g a tr Hi Hv Hme Ei.
   apply Conc.safe_bind. eapply Conc.safe_weaken; [|apply (safe_lock_loops fuel t i (EEnt k ek))].
   intros got l ->. destruct got; [|exact I].
@@ -884,7 +897,7 @@ Proof.
       destruct Hd as [[Hd _]|[_ Hd]]; [congruence|].
       destruct ek as [v q|].
       + exists (upd_a a t (EPushed k v) []). split; [|split; [apply frame_upd_a|]].
-        { apply Inv_rephase; [exact Hi| | | | |reflexivity].
+        { apply Inv_rephase; [exact Hi| | | | |reflexivity|intros k0 W _; rewrite Hv in W; cbn in W; subst k0; left; cbn; lia].
           - unfold mono. rewrite Hv. cbn. lia.
           - exact I.
           - rewrite Hv. cbn. rewrite E2. reflexivity.
@@ -892,7 +905,7 @@ Proof.
         rewrite view_upd_a. reflexivity.
       + destruct Hd as (n & En & Hin).
         exists (upd_a a t (EPopX k n (val g n)) []). split; [|split; [apply frame_upd_a|]].
-        { apply Inv_rephase; [exact Hi| | | | |reflexivity].
+        { apply Inv_rephase; [exact Hi| | | | |reflexivity|nw Hv].
           - unfold mono. rewrite Hv. cbn. lia.
           - cbn. repeat split; auto. apply inited_mono; auto. unfold mono. rewrite Hv. cbn. lia.
           - rewrite Hv. cbn. rewrite E2, En. reflexivity.
@@ -900,7 +913,7 @@ Proof.
         rewrite view_upd_a. cbn. eauto.
     - (* not collided *)
       exists (upd_a a t (pre_ph k ek) []). split; [|split; [apply frame_upd_a|]].
-      { apply Inv_rephase; [exact Hi| | | | |reflexivity].
+      { apply Inv_rephase; [exact Hi| | | | |reflexivity|intros k0 W St2; contradiction].
         - unfold mono. rewrite Hv. destruct ek; cbn; lia.
         - destruct ek; cbn in *; auto.
         - rewrite Hv. cbn. apply Nat.eqb_neq in E2. rewrite E2. destruct ek; reflexivity.
@@ -961,7 +974,7 @@ Proof.
   intros g a tr Hi Hv. unfold view in Hv. cbn [a_st_next fst snd].
   pose proof (Inv_phase _ _ _ t Hi) as Hme. rewrite Hv in Hme. cbn in Hme. destruct Hme as [_ Hval].
   exists (upd_a a t (EPushL k v p) []). split; [|split; [apply frame_upd_a|]].
-  { apply (Inv_keep g _ a tr t (t, k)); [exact Hi| | | | | | |reflexivity].
+  { apply (Inv_keep g _ a tr t (t, k)); [exact Hi| | | | | | |reflexivity|hd_same|nw Hv].
     - repeat split; auto. cbn. rewrite node_eqb_neq; auto.
     - split; [left; rewrite Hv; split; reflexivity|left; reflexivity].
     - unfold mono. rewrite Hv. cbn. lia.
@@ -994,7 +1007,7 @@ Proof.
   (* node constructor *)
   intros g a tr Hi Hv. unfold view in Hv. cbn [a_node_init fst snd].
   exists (upd_a a t (EPushL k v None) []). split; [|split; [apply frame_upd_a|]].
-  { apply (Inv_keep g _ a tr t (t, k)); [exact Hi| | | | | | |reflexivity].
+  { apply (Inv_keep g _ a tr t (t, k)); [exact Hi| | | | | | |reflexivity|hd_same|nw Hv].
     - repeat split; auto; cbn; rewrite node_eqb_neq; auto.
     - split; [left; rewrite Hv; split; reflexivity|right]. unfold inited; cbn. rewrite Hv. cbn. lia.
     - unfold mono. rewrite Hv. cbn. lia.
@@ -1023,7 +1036,7 @@ Proof.
   (* hazard slot store *)
   intros g a tr Hi Hv. unfold view in Hv. cbn [a_st_hp fst snd].
   exists (upd_a a t (EPopH k pCur) []). split; [|split; [apply frame_upd_a|]].
-  { apply (Inv_keep g _ a tr t (own a t)); [exact Hi| | | | | | |reflexivity].
+  { apply (Inv_keep g _ a tr t (own a t)); [exact Hi| | | | | | |reflexivity|hd_same|nw Hv].
     - repeat split; auto; cbn; rewrite updf_other; auto.
     - apply wr_own. reflexivity.
     - unfold mono. rewrite Hv. cbn. lia.
@@ -1041,7 +1054,7 @@ Proof.
   destruct (ptr_eqb pCur (top g)) eqn:E.
   - apply ptr_eqb_spec in E. subst pCur. destruct (top g) as [n|] eqn:Etop.
     + exists (upd_a a t (EPopV k n) []). split; [|split; [apply frame_upd_a|]].
-      { apply Inv_rephase; [exact Hi| | | | |reflexivity].
+      { apply Inv_rephase; [exact Hi| | | | |reflexivity|nw Hv].
         - unfold mono. rewrite Hv. cbn. lia.
         - cbn. split; auto. apply published_mono; [unfold mono; rewrite Hv; cbn; lia|].
           destruct Hi as (I1 & _ & I3 & _). destruct (chain_head _ _ _ n I1 Etop) as (r & Hs & _).
@@ -1051,7 +1064,7 @@ Proof.
       rewrite view_upd_a. reflexivity.
     + (* validated null: the linearization point of an empty pop *)
       exists (upd_a a t (EPopE k) [ELin t]). split; [|split; [apply frame_upd_a|]].
-      { apply (Inv_keep g g a tr t (own a t)); [exact Hi| | | | | | |reflexivity].
+      { apply (Inv_keep g g a tr t (own a t)); [exact Hi| | | | | | |reflexivity|hd_same|nw Hv].
         - repeat split; auto.
         - apply wr_own. reflexivity.
         - unfold mono. rewrite Hv. cbn. lia.
@@ -1061,7 +1074,7 @@ Proof.
           apply chain_nil in I1. rewrite I1. apply lp_ok_empty. }
       rewrite view_upd_a. reflexivity.
   - exists (upd_a a t (EPop k) []). split; [|split; [apply frame_upd_a|]].
-    { apply Inv_rephase; [exact Hi| | | | |reflexivity].
+    { apply Inv_rephase; [exact Hi| | | | |reflexivity|nw Hv].
       - unfold mono. rewrite Hv. cbn. lia.
       - exact I.
       - now rewrite Hv.
@@ -1112,7 +1125,7 @@ Proof.
     cbn [Conc.safe]. intros g a tr Hi Hv. unfold view in Hv. cbn [a_ld_next fst snd ptr_of].
     pose proof (Inv_phase _ _ _ t Hi) as Hme. rewrite Hv in Hme. cbn in Hme. destruct Hme as [Hpub Hhp].
     exists (upd_a a t (EPopR k n (next g n)) []). split; [|split; [apply frame_upd_a|]].
-    { apply Inv_rephase; [exact Hi| | | | |reflexivity].
+    { apply Inv_rephase; [exact Hi| | | | |reflexivity|nw Hv].
       - unfold mono. rewrite Hv. cbn. lia.
       - cbn. repeat split; auto. apply published_mono; [unfold mono; rewrite Hv; cbn; lia|auto].
       - now rewrite Hv.
@@ -1130,7 +1143,7 @@ Proof.
       intros g a tr Hi Hv. unfold view in Hv. cbn [a_st_next fst snd].
       pose proof (Inv_phase _ _ _ t Hi) as Hme. rewrite Hv in Hme. cbn in Hme. destruct Hme as (Hpub & Hnin & Hval).
       exists (upd_a a t (EPopG k n v) []). split; [|split; [apply frame_upd_a|]].
-      { apply (Inv_keep g _ a tr t n); [exact Hi| | | | | | |reflexivity].
+      { apply (Inv_keep g _ a tr t n); [exact Hi| | | | | | |reflexivity|hd_same|nw Hv].
         - repeat split; auto. cbn. rewrite node_eqb_neq; auto.
         - split; [right; auto|left; reflexivity].
         - unfold mono. rewrite Hv. cbn. lia.
@@ -1148,7 +1161,7 @@ Proof.
       apply safe_finish_pop; [exact I|]. cbn. exists n. left; reflexivity.
     + (* CAS failed: elimination back-off *)
       exists (upd_a a t (EPop k) []). split; [|split; [apply frame_upd_a|]].
-      { apply Inv_rephase; [exact Hi| | | | |reflexivity].
+      { apply Inv_rephase; [exact Hi| | | | |reflexivity|nw Hv].
         - unfold mono. rewrite Hv. cbn. lia.
         - exact I.
         - now rewrite Hv.
@@ -1194,10 +1207,12 @@ Lemma safe_client g a tr t p' ae es :
   (forall k ek i, ph a t = EPub k ek i -> False) ->
   lp_ok t (map (val g) (stk a)) (status_of g t (ph a t)) (status_of g t p') ae ->
   erase ae = hist (Conc.tag t es) ->
+  (forall k, is_wait_push (ph a t) k -> False) ->
   Inv g (upd_a a t p' ae) (tr ++ Conc.tag t es).
 Proof.
-  intros Hi L Hok Hnp Hlp Her.
-  apply (Inv_keep g g a tr t (own a t)); [exact Hi| | |exact L|exact Hok| |exact Hlp|exact Her].
+  intros Hi L Hok Hnp Hlp Her Hnw.
+  apply (Inv_keep g g a tr t (own a t)); [exact Hi| | |exact L|exact Hok| |exact Hlp|exact Her|hd_same|];
+    [| | |intros k W; destruct (Hnw k W)].
   - repeat split; auto.
   - apply wr_own. reflexivity.
   - apply (SI_keep g g a t); auto. exact (Inv_SI _ _ _ Hi). intros k ek i E. destruct (Hnp _ _ _ E).
@@ -1209,7 +1224,7 @@ Proof.
   - (* push *)
     intros g a tr Hi Hv. unfold view in Hv.
     exists (upd_a a t (EPush k v) [EInv t (Push v)]). split; [|split; [apply frame_upd_a|]].
-    { apply safe_client; [exact Hi| | | | |reflexivity].
+    { apply safe_client; [exact Hi| | | | |reflexivity|nw Hv].
       - unfold mono. rewrite Hv. cbn. lia.
       - exact I.
       - intros k' ek i E. rewrite Hv in E. discriminate.
@@ -1220,7 +1235,7 @@ Proof.
                                   else Emit [EvCli "outoffuel" []] (Ret false)) l (Qop k))).
     + cbn [Conc.safe]. clear g a tr Hi Hv. intros g a tr Hi Hv. unfold view in Hv.
       exists (upd_a a t (EIdle (S k)) [ERes t (RBool true)]). split; [|split; [apply frame_upd_a|]].
-      { apply safe_client; [exact Hi| | | | |reflexivity].
+      { apply safe_client; [exact Hi| | | | |reflexivity|nw Hv].
         - unfold mono. rewrite Hv. cbn. lia.
         - exact I.
         - intros k' ek i E. rewrite Hv in E. discriminate.
@@ -1230,7 +1245,7 @@ Proof.
   - (* pop *)
     intros g a tr Hi Hv. unfold view in Hv.
     exists (upd_a a t (EPop k) [EInv t Pop]). split; [|split; [apply frame_upd_a|]].
-    { apply safe_client; [exact Hi| | | | |reflexivity].
+    { apply safe_client; [exact Hi| | | | |reflexivity|nw Hv].
       - unfold mono. rewrite Hv. cbn. lia.
       - exact I.
       - intros k' ek i E. rewrite Hv in E. discriminate.
@@ -1241,7 +1256,7 @@ Proof.
     + apply safe_emit_fuel. intros l' H. discriminate.
     + subst l. cbn [Conc.safe]. clear g a tr Hi Hv. intros g a tr Hi Hv. unfold view in Hv.
       exists (upd_a a t (EIdle (S k)) [ERes t (RVal None)]). split; [|split; [apply frame_upd_a|]].
-      { apply safe_client; [exact Hi| | | | |reflexivity].
+      { apply safe_client; [exact Hi| | | | |reflexivity|nw Hv].
         - unfold mono. rewrite Hv. cbn. lia.
         - exact I.
         - intros k' ek i E. rewrite Hv in E. discriminate.
@@ -1249,7 +1264,7 @@ Proof.
       rewrite view_upd_a. intros _. reflexivity.
     + cbn [Conc.safe]. clear g a tr Hi Hv. intros g a tr Hi Hv. unfold view in Hv.
       exists (upd_a a t (EIdle (S k)) [ERes t (RVal (Some v))]). split; [|split; [apply frame_upd_a|]].
-      { apply safe_client; [exact Hi| | | | |reflexivity].
+      { apply safe_client; [exact Hi| | | | |reflexivity|intros k0 W; rewrite Hv in W; destruct Hl as [n [-> | ->]]; destruct W].
         - unfold mono. rewrite Hv. destruct Hl as [n [-> | ->]]; cbn; lia.
         - exact I.
         - intros k' ek i E. rewrite Hv in E. destruct Hl as [n [-> | ->]]; discriminate.
@@ -1285,11 +1300,15 @@ Definition aux0 : Aux := mkA [] [] (fun _ => EIdle 0).
 Lemma init_ok fuel cap ths : Conc.cfg_ok view Inv (init_cfg fuel cap ths).
 Proof.
   exists aux0. split.
-  - cbn. repeat split; auto.
+  - unfold Inv. cbn [init_cfg Conc.shared Conc.trace]. split_inv.
+    + reflexivity.
     + constructor.
     + intros n [].
+    + intros t. exact I.
     + intros i u ku E. discriminate.
     + exists (fun _ => SIdle). split; reflexivity.
+    + reflexivity.
+    + intros u n [_ H]. discriminate.
   - intros t p Hp. cbn [init_cfg Conc.threads] in Hp.
     destruct (nth_thread_progs _ _ _ _ _ _ Hp) as (rl & os & ->). cbn. apply safe_thread.
 Qed.
@@ -1302,7 +1321,7 @@ Theorem treiber_elim_lp_valid fuel cap ths c :
   Conc.reach (init_cfg fuel cap ths) c ->
   exists atr, lp_valid Stack atr /\ erase atr = hist (Conc.trace c).
 Proof.
-  intros Hr. destruct (Conc.reach_Inv (init_ok fuel cap ths) Hr) as (a & _ & _ & _ & _ & _ & (sts & H & _) & He).
+  intros Hr. destruct (Conc.reach_Inv (init_ok fuel cap ths) Hr) as (a & _ & _ & _ & _ & _ & (sts & H & _) & He & _).
   exists (atr a). split; [|exact He]. eexists. exact H.
 Qed.
 
@@ -1311,4 +1330,27 @@ Theorem treiber_elim_linearizable fuel cap ths c :
 Proof.
   intros Hr. destruct (treiber_elim_lp_valid fuel cap ths c Hr) as (atr & Hv & He).
   rewrite <- He. now apply lp_valid_linearizable.
+Qed.
+
+(** ** "An eliminated push/pop pair delivers the pushed item to exactly one popper" at the level of nodes:
+       in every reachable configuration a node that sits in the descriptor of a pop (it was handed over through a
+       collision slot) sits in no other pop descriptor, and it is not on the m_pNext chain from m_Top — it never
+       enters the list *)
+Theorem elim_exactly_one_popper fuel cap ths c :
+  Conc.reach (init_cfg fuel cap ths) c ->
+  let g := Conc.shared c in
+  (forall t1 t2 n, d_push g t1 = false -> d_push g t2 = false ->
+                   d_val g t1 = Some n -> d_val g t2 = Some n -> t1 = t2) /\
+  (forall t n l, d_push g t = false -> d_val g t = Some n -> chain (next g) (top g) l -> ~ In n l).
+Proof.
+  intros Hr g. destruct (Conc.reach_Inv (init_ok fuel cap ths) Hr) as (a & I1 & _ & _ & _ & _ & _ & _ & I8).
+  fold g in I1, I8. split.
+  - intros t1 t2 n P1 P2 V1 V2. destruct (I8 t2 n (conj P2 V2)) as (_ & _ & U). apply U. split; auto.
+  - intros t n l P V C. destruct (I8 t n (conj P V)) as (_ & N & _).
+    assert (l = stk a); [|subst l; exact N].
+    clear - C I1. revert C I1. generalize (top g) as p. generalize (stk a) as l'. revert l.
+    induction l as [|x l IH]; intros [|y l'] p C C'; cbn in *; auto.
+    + destruct C' as [E _]. congruence.
+    + destruct C as [E _]. congruence.
+    + destruct C as [E C], C' as [E' C']. assert (x = y) by congruence. subst y. f_equal. eapply IH; eauto.
 Qed.
